@@ -250,6 +250,26 @@ def rule_mode_pairs(ctx: Ctx) -> RuleResult:
             rr.inst(f"restore value {sig}", True, {"signal": sig, "restored_value": norm(v, 70)})
             if not ok:
                 rr.add(finding("PAIR", sr, c, f"{sig} is restored as `{norm(v, 70)}`: the saved handler {attr} is passed through a test other than 'is it None / false', so a saved disposition that fails the test (signal.SIG_IGN is not callable) is replaced by SIG_DFL instead of being restored", construct=f"{sig} restored through a narrower test"))
+    # a signal whose handler is NOT replaced by signal_init (SIGCONT is only taken over while suspended) may be
+    # restored only when it was actually replaced: its restore is guarded by a flag that is raised exactly where
+    # the handler is replaced - an unconditional `saved or SIG_DFL` puts SIG_DFL over the application's handler
+    from ..rules.exc import ExcEngine
+
+    cfg_sr = cfg_of(sr)
+    for sig, v, c in triples:
+        if sig in set_sigs:
+            continue
+        attrs = [x.attr for x in ast.walk(v) if isinstance(x, ast.Attribute) and isinstance(x.value, ast.Name) and x.value.id == sr.self_name]
+        where = [f for f in psx.methods.values() if any(isinstance(n, ast.Assign) and any(isinstance(t, ast.Attribute) and t.attr in attrs for t in n.targets) and isinstance(n.value, ast.Call) and callee_name(n.value) == "signal_handler_setter" for n in f.own_nodes())]
+        cn = nodes_where(cfg_sr, lambda x, c=c: x is c)
+        flags = set()
+        for t in cfg_sr.nodes:
+            if t.kind == "test" and cn and cn[0] not in ExcEngine._reach_without_edge(cfg_sr, t, "T"):
+                flags |= {x.attr for x in ast.walk(t.ast) if isinstance(x, ast.Attribute) and isinstance(x.value, ast.Name) and x.value.id == sr.self_name}
+        raised = {t.attr for f in where for n in f.own_nodes() if isinstance(n, ast.Assign) and isinstance(n.value, ast.Constant) and n.value.value is True for t in n.targets if isinstance(t, ast.Attribute)}
+        rr.inst(f"conditional restore of {sig}", True, {"signal": sig, "replaced_in": [short(f) for f in where], "restore_guard": sorted(flags & raised)})
+        if not (flags & raised):
+            rr.add(finding("PAIR", sr, c, f"{sig} is not replaced by signal_init() (only by {', '.join(short(f) for f in where) or 'nothing'}), yet signal_restore() sets it unconditionally to `{norm(v, 60)}`: in a session without that replacement the saved value is None and the application's own {sig} handler is overwritten with SIG_DFL", construct=f"{sig} restored although it may never have been replaced"))
     # tty signal keys
     rr.inst("tty signal keys restored", True)
     if list(calls_in(start, "tty_signal_keys")) and not list(calls_in(stop, "tty_signal_keys")):
@@ -429,10 +449,11 @@ from ..mutants import Mut  # noqa: E402
 _M = "urwid/event_loop/main_loop.py"
 _P = "urwid/display/_posix_raw_display.py"
 MUTANTS = [
+    Mut("sigcont-restored-unconditionally", "urwid/display/_posix_raw_display.py", "Screen.signal_restore", "        if self._sigcont_replaced:\n            self.signal_handler_setter(signal.SIGCONT, self._prev_sigcont_handler or signal.SIG_DFL)\n            self._sigcont_replaced = False", "        self.signal_handler_setter(signal.SIGCONT, self._prev_sigcont_handler or signal.SIG_DFL)", "PAIR|display._posix_raw_display.Screen.signal_restore"),
     Mut("twin-topmost-captured-but-unused", "urwid/event_loop/main_loop.py", "MainLoop.process_input", "        something_handled = False\n", "        something_handled = False\n        topmost = self._topmost_widget\n        del topmost\n", twin=True),
     Mut("topmost-stale-in-batch", "urwid/event_loop/main_loop.py", "MainLoop.process_input", "        something_handled = False\n\n        for key in keys:\n            if key == \"window resize\":\n                continue\n\n            if isinstance(key, str):\n                if self._topmost_widget.selectable():\n                    if handled_key := self._topmost_widget.keypress(self.screen_size, key):", "        something_handled = False\n        topmost = self._topmost_widget\n\n        for key in keys:\n            if key == \"window resize\":\n                continue\n\n            if isinstance(key, str):\n                if topmost.selectable():\n                    if handled_key := topmost.keypress(self.screen_size, key):", "SNAP|event_loop.main_loop.MainLoop.process_input"),
     Mut("restore-only-callable-handlers", "urwid/display/_posix_raw_display.py", "Screen.signal_restore", "self.signal_handler_setter(signal.SIGTSTP, self._prev_sigtstp_handler or signal.SIG_DFL)", "self.signal_handler_setter(signal.SIGTSTP, self._prev_sigtstp_handler if callable(self._prev_sigtstp_handler) else signal.SIG_DFL)", "PAIR|display._posix_raw_display.Screen.signal_restore"),
-    Mut("twin-restore-folded-into-loop", "urwid/display/_posix_raw_display.py", "Screen.signal_restore", "        self.signal_handler_setter(signal.SIGTSTP, self._prev_sigtstp_handler or signal.SIG_DFL)\n        self.signal_handler_setter(signal.SIGCONT, self._prev_sigcont_handler or signal.SIG_DFL)\n        self.signal_handler_setter(signal.SIGWINCH, self._prev_sigwinch_handler or signal.SIG_DFL)", "        for signum, previous in (\n            (signal.SIGTSTP, self._prev_sigtstp_handler),\n            (signal.SIGCONT, self._prev_sigcont_handler),\n            (signal.SIGWINCH, self._prev_sigwinch_handler),\n        ):\n            self.signal_handler_setter(signum, previous or signal.SIG_DFL)", twin=True),
+    Mut("twin-restore-folded-into-loop", "urwid/display/_posix_raw_display.py", "Screen.signal_restore", "        self.signal_handler_setter(signal.SIGTSTP, self._prev_sigtstp_handler or signal.SIG_DFL)\n", "        for signum, previous in (\n            (signal.SIGTSTP, self._prev_sigtstp_handler),\n        ):\n            self.signal_handler_setter(signum, previous or signal.SIG_DFL)\n", twin=True),
     Mut("run-stop-only-on-exception-subclass", _M, "MainLoop._run", "        except:\n            self.screen.stop()  # clean up screen control\n            raise", "        except Exception:\n            self.screen.stop()  # clean up screen control\n            raise", "PASS|"),
     Mut("run-reraise-wrapped", _M, "MainLoop._run", "            self.screen.stop()  # clean up screen control\n            raise\n", "            self.screen.stop()  # clean up screen control\n            raise RuntimeError(\"event loop failed\")\n", "PASS|"),
     Mut("bracketed-paste-not-disabled", _P, "urwid.display._posix_raw_display.Screen._stop", "            self.write(escape.DISABLE_BRACKETED_PASTE_MODE)", "            pass", "PAIR|"),
